@@ -99,18 +99,29 @@ def verify(prop, mdir, sid):
         print(json.dumps(res, indent=1))
         if not ok:
             print((out0 if rc0 != 0 else "") [-1500:], (out1 if rc1 == 0 else "")[-500:], (outs if rcs != 0 else "")[-1500:])
+            mp = os.path.join(ROOT, "seeded", sid, "meta.json")
+            if os.path.abspath(mdir) == os.path.abspath(os.path.join(ROOT, "seeded", sid)) and os.path.exists(mp):
+                old = json.load(open(mp))
+                old["reverify_failed"] = res
+                json.dump(old, open(mp, "w"), indent=1)
             return 1
         d = os.path.join(ROOT, "seeded", sid)
         os.makedirs(d, exist_ok=True)
-        shutil.copy(patch, os.path.join(d, "patch.diff"))
-        for _, f in placed:
-            shutil.copy(os.path.join(mdir, f), os.path.join(d, f))
-        if os.path.exists(os.path.join(mdir, "README.md")):
-            shutil.copy(os.path.join(mdir, "README.md"), os.path.join(d, "README.md"))
+        if os.path.abspath(mdir) != os.path.abspath(d):
+            shutil.copy(patch, os.path.join(d, "patch.diff"))
+            for _, f in placed:
+                shutil.copy(os.path.join(mdir, f), os.path.join(d, f))
+            if os.path.exists(os.path.join(mdir, "README.md")):
+                shutil.copy(os.path.join(mdir, "README.md"), os.path.join(d, "README.md"))
         meta = {"id": sid, "breaks_property": prop, "needs_to_manifest": "see README.md", "confirmation": res, "checks": {}}
         mp = os.path.join(d, "meta.json")
         if os.path.exists(mp):
-            meta["checks"] = json.load(open(mp)).get("checks", {})
+            old = json.load(open(mp))
+            meta["checks"] = old.get("checks", {})
+            for k in ("summary", "needs_to_manifest"):
+                if old.get(k):
+                    meta[k] = old[k]
+        res["repo_head"] = sh(["git", "-C", "/repo", "rev-parse", "--short", "HEAD"])[1].strip()
         json.dump(meta, open(mp, "w"), indent=1)
         return 0
     finally:
@@ -157,3 +168,8 @@ if __name__ == "__main__":
         sys.exit(verify(sys.argv[2], sys.argv[3], sys.argv[4]))
     elif sys.argv[1] == "run":
         run(sys.argv[2], sys.argv[3:])
+    elif sys.argv[1] == "reverify":
+        # confirm a stored seeded change again against /repo's current HEAD
+        sid = sys.argv[2]
+        m = json.load(open(os.path.join(ROOT, "seeded", sid, "meta.json")))
+        sys.exit(verify(m["breaks_property"], os.path.join(ROOT, "seeded", sid), sid))
